@@ -823,6 +823,21 @@ func stAux(c *stCase) Verdict {
 			}
 			prev = i1
 		}
+		// the function of (x, a, b) does not depend on what was evaluated before: the same first
+		// parameter with another second one in between (as a table over degrees of freedom does)
+		a2 := stLogUniform(rng, 1, 1e5) / 2
+		for _, x := range xs {
+			j1 := stats.VerifBetaInc(1-x, b, a)
+			j2 := stats.VerifBetaInc(1-x, b, a2)
+			j1b := stats.VerifBetaInc(1-x, b, a)
+			k2 := stats.VerifBetaInc(x, a2, b)
+			if j1 != j1b && !(math.IsNaN(j1) && math.IsNaN(j1b)) {
+				return aux("beta-history", conc, "I_%v(%v,%v) = %v, and %v after evaluating I_%v(%v,%v)", 1-x, b, a, j1, j1b, 1-x, b, a2)
+			}
+			if math.IsNaN(j2) || math.IsNaN(k2) || math.Abs(j2+k2-1) > 1e-9 {
+				return aux("beta-symmetry", conc, "I_%v(%v,%v) + I_%v(%v,%v) = %v (evaluated right after I(%v,%v))", 1-x, b, a2, x, a2, b, j2+k2, b, a)
+			}
+		}
 	default:
 		stBad("unknown auxiliary probe %q", c.Probe)
 	}
